@@ -276,7 +276,11 @@ pub fn rand(min: u64, max: u64, unused3: u64, unused4: u64, unused5: u64) -> u64
     });
 
     if min < max {
-        n = n % (max + 1 - min) + min;
+        // The range [min, max] holds (max - min + 1) values, which is 2^64 (not representable) for
+        // the full range: any u64 is then already in range.
+        if let Some(count) = (max - min).checked_add(1) {
+            n = n % count + min;
+        }
     };
     n
 }
